@@ -9,6 +9,7 @@ import Xo.Drv.KCall
 import Xo.Drv.Hybrid
 import Xo.Drv.DictForm
 import Xo.Drv.Pickle
+import Xo.Drv.RefGraph
 /-! `lake env lean --run Driver.lean <component>` : stdin ops → stdout results -/
 def main (args : List String) : IO UInt32 := do
   let i ← IO.getStdin
@@ -24,5 +25,6 @@ def main (args : List String) : IO UInt32 := do
   | ["hyb"] => Drv.loop i o Drv.HybD.step Drv.HybD.init; return 0
   | ["dict"] => Drv.loop i o Drv.DictD.step {}; return 0
   | ["pk"] => Drv.loop i o Drv.PkD.step (); return 0
+  | ["rg"] => Drv.loop i o Drv.RGD.step Drv.RGD.init; return 0
   | ["topo"] => Drv.loop i o Drv.TopoD.step (); return 0
   | _ => IO.eprintln "usage: Driver.lean <component>"; return 2
